@@ -30,6 +30,10 @@ func appendClosure(fn *ssa.Function) (*ssa.FreeVar, bool) {
 	}
 	var cell *ssa.FreeVar
 	n := 0
+	// straight-line: every call appends (a filter in front of the append would drop pitches, e.g. a bass equal to a chord tone)
+	if len(fn.Blocks) != 1 {
+		return nil, false
+	}
 	allInstrs(fn, func(in ssa.Instruction) {
 		st, ok := in.(*ssa.Store)
 		if !ok {
